@@ -5,6 +5,11 @@ import (
 )
 
 func init() {
+	models["math.Round"] = func(x *Exec, st *State, fr *Frame, in ssa.Instruction, fn *ssa.Function, args []Val, k callCont) {
+		x.used("math.Round (nearest integer, halves away from zero; on the real-number reading of float64)")
+		a := args[0].(Term)
+		k(st, Term{x.define(st, "rnd", "Real", app("to_real", app("roundhalf", a.S))), a.T})
+	}
 	models["github.com/projecteru2/core/utils.AdvancedDivide"] = func(x *Exec, st *State, fr *Frame, in ssa.Instruction, fn *ssa.Function, args []Val, k callCont) {
 		x.used("utils.AdvancedDivide (0 when either operand is 0, else the quotient)")
 		a, b := args[0].(Term), args[1].(Term)
